@@ -173,6 +173,28 @@ func (p *Program) extraDecls(used map[string]bool, allOps map[string]bool) strin
 		// read-over-write at the level of slice views: keeps element reads of the updated row connected to reads of the old row
 		fmt.Fprintf(&sb, "(assert (forall ((A (Array Int %s)) (j Int) (v %s) (o Int) (i Int)) (! (= (%s (store A j v) o i) (ite (= (+ o i) j) v (%s A o i))) :pattern ((%s (store A j v) o i)))))\n", el, el, op, op, op)
 	}
+	// built-in slice sums: declaration and the store-update law
+	//   fsum(A[j:=v],o,n) = fsum(A,o,n) + (o <= j < o+n ? val(v) - val(A[j]) : 0)
+	// (a theorem about finite sums; the defining recursion is instantiated at ground terms by fsumUnfold)
+	var fsums []string
+	for op := range allOps {
+		if strings.HasPrefix(op, "fsum.") {
+			fsums = append(fsums, op)
+		}
+	}
+	sort.Strings(fsums)
+	for _, op := range fsums {
+		el := op[5:]
+		val := func(x string) string {
+			if el == "XReal" {
+				return "(fv " + x + ")"
+			}
+			return x
+		}
+		fmt.Fprintf(&sb, "(declare-fun %s ((Array Int %s) Int Int) Real)\n", op, el)
+		fmt.Fprintf(&sb, "(assert (forall ((A (Array Int %s)) (j Int) (v %s) (o Int) (n Int)) (! (= (%s (store A j v) o n) (ite (and (<= o j) (< j (+ o n))) (+ (%s A o n) (- %s %s)) (%s A o n))) :pattern ((%s (store A j v) o n)))))\n",
+			el, el, op, op, val("v"), val("(select A j)"), op, op)
+	}
 	// pure function symbols in declaration order
 	for _, name := range TB.funOrd {
 		if !allOps[name] {
@@ -577,6 +599,13 @@ func (p *Program) buildQueryOpt(o *Obligation, unfoldDepth int, filter bool) str
 	}
 	defs := p.unfoldDefs(asserts, unfoldDepth)
 	asserts = append(asserts, defs...)
+	{
+		d := unfoldDepth
+		if d < 2 && !o.NoUnfold {
+			d = 2
+		}
+		asserts = append(asserts, fsumUnfold(asserts, d)...)
+	}
 	asserts = append(asserts, mathAxioms(asserts)...)
 	allOps := map[string]bool{}
 	seen := map[*Term]bool{}
